@@ -10,8 +10,14 @@ package util
 // The worker goroutine: checked only as "spawned with this extent" (its body is concurrency, see DESIGN 2.3).
 //@ func Scatter$1
 
+// Scatter is a parallel-for driver: callers apply the disjoint-parallel rule to the worker closure they pass.
+// The 'with' clause (what every spawned worker receives as offset/entries) is proved at the go statement.
+// Assumed, not verified: the goroutine Scatter$1 calls work(offset, entries, mutex) exactly once with its own
+// parameters, and Scatter returns only after one message per worker has arrived (channel counting).
 //@ func Scatter
 //@ requires inputLen <= 4611686018427387904
+//@ parfor work inputLen
+//@ with [extent] 0 <= arg0 && arg1 >= 1 && arg0 + arg1 <= inputLen
 //@ ensures [nodata] inputLen <= 0 ==> result1 != nil && len(result0) == 0
 //@ hint-after calculateExtentSize@1 [workers] true
 //@ hint-after Scatter$1@1 [extent] offset == worker * extentSize && 0 <= offset && entries >= 1 && offset + entries <= inputLen && (entries == extentSize || offset + entries == inputLen) && (worker == workers - 1 ==> offset + entries == inputLen) && (worker < workers - 1 ==> entries == extentSize)
